@@ -1399,3 +1399,22 @@ def idx0(run, reach):
                           "%s passes `%s` to %s, which reads element %d without a length test; nothing here establishes that it is non-empty: index out of bounds panic" % (
                               f.id, describe_origin(f, root), fid.rsplit("::", 1)[-1], ci))
     return n
+
+
+def maybe_no_unwrap(run, R="IDX0"):
+    """a function whose name promises a soft answer (`maybe_*`, `try_*`, returning Option) does not itself insist on a value being
+    there: no unwrap/expect inside it (the name and the body would state opposite beliefs, and the caller that asked softly panics)"""
+    import re as _re
+    n, bad = 0, []
+    for f in run.prog.real_fns():
+        last = _re.sub(r"<.*?>", "", f.id).rsplit("::", 1)[-1]
+        if f.kind not in ("Fn", "AssocFn") or not _re.match(r"^(maybe_|try_)", last) or not (f.ret or "").startswith("std::option::Option<"):
+            continue
+        n += 1
+        for bi, t in f.calls():
+            c = t.get("callee") or ""
+            if _re.search(r"(Option::<T>|Result::<T, E>)::(unwrap|expect)$", c) and not (t.get("span") or {}).get("mac"):
+                bad.append("%s (%s)" % (f.loc(t["span"]), f.id))
+    run.check(not bad, R, R + "|maybe-no-unwrap", "-", "no `maybe_*`/`try_*` function returning Option unwraps inside (%d function(s))" % n,
+              "a function that promises a soft answer unwraps a value itself: %s: the caller that asked whether something exists would panic instead of being told `no`" % ", ".join(bad))
+    run.floor(R, "soft-answer functions", n, 5)
